@@ -3,6 +3,7 @@ CONSTANTS
   Depth = 2
   ChainDepth = 3
   SkipAllVClose = TRUE
+  IfGuard = TRUE
   Emit = FALSE
 INVARIANTS MeaningKept OnlyBracesGo EmitTree
 CHECK_DEADLOCK FALSE
